@@ -601,6 +601,7 @@ RL = "nostr_relay/rate_limiter.py"
 WEB = "nostr_relay/web.py"
 
 MUTANTS = [
+    M("c18-early-return-before-prune", "nostr_relay/rate_limiter.py", "        now = self._timestamp()\n        if timestamps:\n            max_interval = max(rules)[0]", "        now = self._timestamp()\n        if len(rules) == 1 and rules[0][1] < 0:\n            return False\n        if timestamps:\n            max_interval = max(rules)[0]", "C18.pruned"),
     M("c18-address-cut", "nostr_relay/rate_limiter.py", "        command = message[0]\n        self.log.debug(\"Checking limits for %s %s\", command, client_address)", "        command = message[0]\n        client_address = client_address.rpartition(\":\")[0] or client_address\n        self.log.debug(\"Checking limits for %s %s\", command, client_address)", "C18.key"),
     M("c18-wall-clock", "nostr_relay/rate_limiter.py", "        return perf_counter() - self._starttime", "        import time\n\n        return time.time() - self._starttime", "C18.clock"),
     M("c18-limiter-asked-twice", "nostr_relay/web.py", "                if rate_limiter and rate_limiter.is_limited(remote_addr, message):\n                    if command == \"EVENT\":", "                if rate_limiter and rate_limiter.is_limited(remote_addr, [command]):\n                    continue\n                if rate_limiter and rate_limiter.is_limited(remote_addr, message):\n                    if command == \"EVENT\":", "C18.once"),
